@@ -111,6 +111,26 @@ class Flow:
             return ('adt', adt, e.get('variant'), tuple((f.get('name'), self.ev(f['expr'], env, depth)) for f in e['fields']))
         if k == 'Match' and 'TryDesugar' in str(e.get('source')):
             return self.ev(e['scrutinee'], env, depth)
+        if k == 'Match' and e.get('source') == 'Normal':
+            # a match on a value whose variant is known (an enum value built a moment ago, e.g. InputSource::File(path).open()): the arm that accepts it
+            sv = self.ev(e['scrutinee'], env, depth)
+            if sv[0] == 'adt' and sv[2] is not None:
+                for a in e['arms']:
+                    if a.get('guard') is not None: break
+                    p = a['pat']
+                    while p['k'] in ('Deref', 'DerefPattern'): p = p['sub']
+                    if p['k'] == 'Variant' and canon(p.get('adt', '')) == sv[1]:
+                        if p['variant'] != sv[2]: continue
+                        env2 = dict(env)
+                        for sp in p.get('subs', []):
+                            vals = [v for (n_, v) in sv[3]]
+                            if sp['field'] < len(vals): self.bind(sp['pat'], vals[sp['field']], env2)
+                        return self.ev(a['body'], env2, depth)
+                    if p['k'] in ('Wild', 'Binding'):
+                        env2 = dict(env); self.bind(a['pat'], sv, env2)
+                        return self.ev(a['body'], env2, depth)
+                    break
+            return ('unknown', 'Match')
         if k == 'If':
             c = e['cond']
             while c['k'] in ('Use',): c = c['source']
